@@ -121,6 +121,7 @@ type refSpec struct {
 	Name string    `json:"name,omitempty"`
 	Mod  int       `json:"mod,omitempty"`
 	Val  valueSpec `json:"val,omitempty"`
+	Val2 valueSpec `json:"val2,omitempty"` // twins: the second function value made by the same def
 }
 
 type targetSpec struct {
@@ -396,6 +397,11 @@ func (p *projSpec) renderTarget(t *targetSpec) string {
 			args = append(args, r.Name+"_a()")
 		case "selfref":
 			args = append(args, t.Name+".label")
+		case "twins":
+			args = append(args, fmt.Sprintf("TW_%s_a()", t.Name), fmt.Sprintf("TW_%s_b()", t.Name))
+		case "cacheonce":
+			pre = append(pre, fmt.Sprintf("    CACHE0.once(\"k_%s\", lambda: %s)", t.Name, r.Val.render()))
+			args = append(args, "CACHE0")
 		case "flag":
 			args = append(args, "FLAG_"+r.Name)
 		case "target":
@@ -421,6 +427,12 @@ func (p *projSpec) renderTarget(t *targetSpec) string {
 			params = append([]string{"self"}, params...)
 		}
 		params = append(params, "*args", "**kwargs")
+	}
+	for i := range t.Refs {
+		if r := &t.Refs[i]; r.Kind == "twins" {
+			fmt.Fprintf(&sb, "def mk_%s(v, d = 0):\n    def inner(x = d):\n        return (v, x)\n    return inner\n\n", t.Name)
+			fmt.Fprintf(&sb, "TW_%s_a = mk_%s(%s)\nTW_%s_b = mk_%s(%s, d = %s)\n\n", t.Name, t.Name, r.Val.render(), t.Name, t.Name, r.Val.render(), r.Val2.render())
+		}
 	}
 	form := t.Form
 	if free != nil {
